@@ -31,12 +31,21 @@ func verifSeedDecoder(i int) (*PathDecoder, verifSeed) {
 		Validators:       verifValidators(),
 	}
 	d := NewDecoder(&verifPathReader{paths: map[string]*PathContext{"dir": pc}})
-	d.SetContext(NewDecoderContext())
+	dctx := NewDecoderContext()
+	// as a language server does: links carry campaign parameters (the URL handed out differs from the schema's)
+	dctx.UtmSource, dctx.UtmMedium, dctx.UseUtmContent = "verif", "ls", true
+	d.SetContext(dctx)
 	pd, err := d.Path(lang.Path{Path: "dir"})
 	if err != nil {
 		panic(err)
 	}
-	// as a language server does: collect the origins of the path once and keep them in the context
+	// as a language server does: collect the targets and origins of the path once and keep them in the context
+	if ts, err := pd.CollectReferenceTargets(); err == nil {
+		// kept in a slice with spare capacity, as slices grown by append have
+		all := make(reference.Targets, 0, 64)
+		all = append(all, pc.ReferenceTargets...)
+		pc.ReferenceTargets = append(all, ts...)
+	}
 	if origins, err := pd.CollectReferenceOrigins(); err == nil {
 		pc.ReferenceOrigins = origins
 	}
@@ -65,7 +74,11 @@ func VerifP_C01C02C04C05C11_Lookups(i int) {
 		panic(err)
 	}
 	if ts, err := pd.CollectReferenceTargets(); err == nil {
-		pc.ReferenceTargets = append(pc.ReferenceTargets, ts...)
+		// (kept in a slice with spare capacity, as slices grown by append have: a query that
+		// appends to it - or to a sub-slice of it - writes into memory other queries share)
+		all := make(reference.Targets, 0, 64)
+		all = append(all, pc.ReferenceTargets...)
+		pc.ReferenceTargets = append(all, ts...)
 	}
 	if origins, err := pd.CollectReferenceOrigins(); err == nil {
 		pc.ReferenceOrigins = origins
@@ -255,8 +268,10 @@ func verifSpecKeys(block *hclsyntax.Block, labels []*schema.LabelSchema, body *s
 			}
 			attr, ok := block.Body.Attributes[name]
 			if !ok {
-				if dv, isDefault := asch.DefaultValue.(schema.DefaultValue); isDefault && dv.Value.Type() == cty.String {
-					want = append(want, verifSpecKey{"attr:" + name, "static:" + dv.Value.AsString(), nil})
+				if dv, isDefault := asch.DefaultValue.(schema.DefaultValue); isDefault {
+					if s, ok := verifStaticKey(dv.Value); ok {
+						want = append(want, verifSpecKey{"attr:" + name, "static:" + s, nil})
+					}
 				}
 				continue
 			}
@@ -277,14 +292,33 @@ func verifSpecKeys(block *hclsyntax.Block, labels []*schema.LabelSchema, body *s
 				continue
 			}
 			val, _ := attr.Expr.Value(nil)
-			if val.IsWhollyKnown() && val.Type() == cty.String {
-				want = append(want, verifSpecKey{"attr:" + name, "static:" + val.AsString(), &r})
+			if s, ok := verifStaticKey(val); ok {
+				want = append(want, verifSpecKey{"attr:" + name, "static:" + s, &r})
 			} else {
 				return nil, false
 			}
 		}
 	}
 	return want, true
+}
+
+// verifStaticKey: a literal key value (string, bool, number) as text
+func verifStaticKey(val cty.Value) (string, bool) {
+	if val == cty.NilVal || !val.IsWhollyKnown() || val.IsNull() {
+		return "", false
+	}
+	switch val.Type() {
+	case cty.String:
+		return val.AsString(), true
+	case cty.Bool:
+		if val.True() {
+			return "true", true
+		}
+		return "false", true
+	case cty.Number:
+		return val.AsBigFloat().String(), true
+	}
+	return "", false
 }
 
 func verifSpecLookup(want []verifSpecKey, es []verifDepEntry) *schema.BodySchema {
@@ -307,7 +341,8 @@ func verifSpecLookup(want []verifSpecKey, es []verifDepEntry) *schema.BodySchema
 			if len(a.Expr.Address) > 0 {
 				v = "addr:" + a.Expr.Address.String()
 			} else {
-				v += a.Expr.Static.AsString()
+				s, _ := verifStaticKey(a.Expr.Static)
+				v += s
 			}
 			found := false
 			for _, w := range want {
@@ -405,6 +440,7 @@ func verifCheckLinks(body *hclsyntax.Body, bs *schema.BodySchema, links []lang.L
 				if verifSameRange(l.Range, *k.rng) {
 					n++
 					verifAssert(strings.HasPrefix(l.URI, db.DocsLink.URL), "C16:link-carries-the-url-of-the-selected-body")
+					verifAssert(strings.Contains(l.URI, "utm_source=verif"), "C16:link-carries-the-campaign-parameters-of-the-context")
 				}
 			}
 			verifAssert(n == 1, "C16:one-link-on-every-written-key-that-selected-the-body")
@@ -633,7 +669,8 @@ func verifCheckBodyCandidates(body *hclsyntax.Body, static, db *schema.BodySchem
 				}
 				var resolved bool
 				dep, _, resolved = verifSpecDependentBodyResolved(block, bsch, es)
-				if !resolved {
+				// a second-level key that selects nothing leaves the first-level body in force
+				if !resolved && dep == nil {
 					return
 				}
 			}
@@ -685,9 +722,9 @@ func VerifP_C07_LabelCompletion(i int) {
 	verifReach("end")
 }
 
-func VerifP_C01C02C04C05C06_Completion_N() int { return len(verifSeedList()) }
-func VerifP_C01C02C04C05C06_Completion_Name(i int) string { return verifSeedList()[i].name }
-func VerifP_C01C02C04C05C06_Completion(i int) {
+func VerifP_C01C02C04C05C06C08_Completion_N() int { return len(verifSeedList()) }
+func VerifP_C01C02C04C05C06C08_Completion_Name(i int) string { return verifSeedList()[i].name }
+func VerifP_C01C02C04C05C06C08_Completion(i int) {
 	d, _ := verifSeedDecoder(i)
 	pos := verifAnyPos(vf)
 	verifFreeze(d.pathCtx)
@@ -698,6 +735,7 @@ func VerifP_C01C02C04C05C06_Completion(i int) {
 			if body, ok := d.pathCtx.Files[vf].Body.(*hclsyntax.Body); ok {
 				verifCheckLabelCandidates(body, d.pathCtx.Schema, pos, cs)
 			}
+			verifCheckArgCandidates(d, pos, cs)
 		}
 	})
 	verifNoWrites("C04:completion-writes", true)
@@ -801,6 +839,24 @@ func VerifP_C01C02C04C05C13_SemTok(i int) {
 					}
 				}
 				verifAssert(known, "C13:token-type-advertised")
+			}
+			// reference steps are marked exactly for the written references that resolve to a collected target
+			for _, o := range d.pathCtx.ReferenceOrigins {
+				mo, ok := o.(reference.MatchableOrigin)
+				if !ok {
+					continue
+				}
+				if _, isLocal := o.(reference.LocalOrigin); !isLocal {
+					continue
+				}
+				_, resolves := d.pathCtx.ReferenceTargets.Match(mo)
+				marked := false
+				for _, t := range toks {
+					if t.Type == lang.TokenReferenceStep {
+						marked = verifOr(marked, verifAnd(o.OriginRange().Start.Byte <= t.Range.Start.Byte, t.Range.End.Byte <= o.OriginRange().End.Byte))
+					}
+				}
+				verifAssert(marked == resolves, "C13:reference-steps-marked-iff-the-reference-resolves")
 			}
 			// exactness of the structural tokens against the oracle
 			body := d.pathCtx.Files[vf].Body.(*hclsyntax.Body)
@@ -960,6 +1016,14 @@ func verifCheckUnexpected(body *hclsyntax.Body, bs *schema.BodySchema, diags hcl
 			}
 			db, _, resolved = verifSpecDependentBodyResolved(block, bsch, es)
 		}
+		if !resolved {
+			// nothing is reported as unexpected anywhere inside a block whose dependent body is unresolved
+			for _, dg := range diags {
+				if dg.Subject != nil && (dg.Summary == "Unexpected attribute" || dg.Summary == "Unexpected block") {
+					verifAssert(verifNot(verifAnd(block.Body.Range().Start.Byte <= dg.Subject.Start.Byte, dg.Subject.End.Byte <= block.Body.Range().End.Byte)), "C15:nothing-unexpected-inside-an-unresolved-block")
+				}
+			}
+		}
 		for name, attr := range block.Body.Attributes {
 			known := knownAttr(bsch.Body, name) || knownAttr(db, name)
 			expect(resolved && !known, "Unexpected attribute", attr.SrcRange, "attribute-in-block")
@@ -1092,6 +1156,7 @@ func verifCheckDeclaredTargets(body *hclsyntax.Body, bs *schema.BodySchema, ts r
 						}
 						verifAssert(t.ScopeId == bsch.Address.ScopeId, "C09:block-target-scope")
 						verifCheckBlockTargetType(block, bsch, t)
+						verifCheckBlockCollections(block, bsch, t)
 					}
 				}
 			}
@@ -1203,6 +1268,50 @@ func verifCheckBlockTargetType(block *hclsyntax.Block, bsch *schema.BlockSchema,
 			case schema.BlockTypeObject:
 				verifAssert(at.IsObjectType(), "C09:nested-object-block-is-an-object")
 			}
+		}
+	}
+}
+
+// verifCheckBlockCollections: the target that stands for all nested blocks of one list/set/map type
+// of a body-as-data block starts at the first such block, ends at the end of one of them, and
+// covers nothing but blocks of that type (blank space aside).
+func verifCheckBlockCollections(block *hclsyntax.Block, bsch *schema.BlockSchema, t reference.Target) {
+	if bsch.Body == nil || block.Body == nil {
+		return
+	}
+	for _, nt := range t.NestedTargets {
+		if len(nt.Addr) != len(t.Addr)+1 || nt.RangePtr == nil || nt.DefRangePtr != nil {
+			continue
+		}
+		as, ok := nt.Addr[len(nt.Addr)-1].(lang.AttrStep)
+		if !ok {
+			continue
+		}
+		nb, ok := bsch.Body.Blocks[as.Name]
+		if !ok || nb.Type == schema.BlockTypeObject || nb.Type == schema.BlockTypeNil {
+			continue
+		}
+		first := true
+		endsAtBlock := false
+		for _, b := range block.Body.Blocks {
+			inside := verifAnd(nt.RangePtr.Start.Byte <= b.Range().Start.Byte, b.Range().End.Byte <= nt.RangePtr.End.Byte)
+			if b.Type == as.Name {
+				if first {
+					verifAssert(nt.RangePtr.Start.Byte == b.Range().Start.Byte, "C09:block-collection-starts-at-its-first-block")
+					first = false
+				}
+				if nt.RangePtr.End.Byte == b.Range().End.Byte {
+					endsAtBlock = true
+				}
+			} else {
+				verifAssert(verifNot(inside), "C09:block-collection-covers-only-its-own-blocks")
+			}
+		}
+		if !first {
+			verifAssert(endsAtBlock, "C09:block-collection-ends-at-one-of-its-blocks")
+		}
+		for _, a := range block.Body.Attributes {
+			verifAssert(verifNot(verifAnd(nt.RangePtr.Start.Byte <= a.SrcRange.Start.Byte, a.SrcRange.End.Byte <= nt.RangePtr.End.Byte)), "C09:block-collection-covers-no-attribute")
 		}
 	}
 }
@@ -1330,7 +1439,9 @@ func verifCheckTargets(ts reference.Targets, parent *reference.Target) {
 					verifAssert(o.Addr[len(o.Addr)-1].String() != last || o.Type != t.Type, "C09:sibling-steps-distinct")
 				}
 			}
-			if t.RangePtr != nil && parent.RangePtr != nil && parent.RangePtr.Filename == t.RangePtr.Filename {
+			// (a collection of nested blocks is no written value: its range is the first run of
+			// adjacent blocks and it has no definition range; see verifCheckBlockCollections)
+			if t.RangePtr != nil && parent.RangePtr != nil && parent.DefRangePtr != nil && parent.RangePtr.Filename == t.RangePtr.Filename {
 				verifAssert(verifAnd(parent.RangePtr.Start.Byte <= t.RangePtr.Start.Byte, t.RangePtr.End.Byte <= parent.RangePtr.End.Byte), "C09:element-inside-its-value")
 			}
 			if is, ok := t.Addr[len(t.Addr)-1].(lang.IndexStep); ok && is.Key.Type() == cty.Number && t.RangePtr != nil {
@@ -1463,6 +1574,15 @@ func verifRefsUnder(expr hclsyntax.Expression, cons schema.Constraint, selfOK bo
 			out = append(out, verifWantOrigin{addr: addr.String(), rng: tr.SourceRange()})
 		}
 	}
+	// a parenthesised key of a map or object item is an arbitrary (string) expression where the
+	// constraint allows interpolated keys, and a place reserved for a literal where it does not
+	addParenKey := func(k hclsyntax.Expression) {
+		if ke, ok := k.(*hclsyntax.ObjectConsKeyExpr); ok {
+			if p, ok := ke.Wrapped.(*hclsyntax.ParenthesesExpr); ok {
+				add(p)
+			}
+		}
+	}
 	switch c := cons.(type) {
 	case schema.OneOf:
 		// the admitted forms are a union: a reference admitted by any member counts once
@@ -1505,12 +1625,18 @@ func verifRefsUnder(expr hclsyntax.Expression, cons schema.Constraint, selfOK bo
 	case schema.Map:
 		if o, ok := expr.(*hclsyntax.ObjectConsExpr); ok {
 			for _, it := range o.Items {
+				if c.AllowInterpolatedKeys {
+					addParenKey(it.KeyExpr)
+				}
 				out = append(out, verifRefsUnder(it.ValueExpr, c.Elem, selfOK)...)
 			}
 		}
 	case schema.Object:
 		if o, ok := expr.(*hclsyntax.ObjectConsExpr); ok {
 			for _, it := range o.Items {
+				if c.AllowInterpolatedKeys {
+					addParenKey(it.KeyExpr)
+				}
 				key, found := verifWrittenKey(it.KeyExpr)
 				if !found {
 					continue
@@ -1542,6 +1668,82 @@ func VerifP_C01C02C04C05C20_Signature(i int) {
 	verifNoWrites("C04:signature-writes", true)
 	verifNoWrites("C05:signature-writes", false)
 	verifReach("end")
+}
+
+// verifCheckArgCandidates: with the cursor in blank space inside the parentheses of a known call
+// (no token touches the cursor, so nothing is typed yet), the boolean literals are offered exactly
+// when the parameter of the argument slot under the cursor - counted in commas, as for signature
+// help - is of type bool (or dynamic).
+func verifCheckArgCandidates(d *PathDecoder, pos hcl.Pos, cs lang.Candidates) {
+	body, ok := d.pathCtx.Files[vf].Body.(*hclsyntax.Body)
+	if !ok {
+		return
+	}
+	var inner *hclsyntax.FunctionCallExpr
+	hclsyntax.VisitAll(body, func(node hclsyntax.Node) hcl.Diagnostics {
+		call, ok := node.(*hclsyntax.FunctionCallExpr)
+		if !ok {
+			return nil
+		}
+		if _, known := d.pathCtx.Functions[call.Name]; !known || call.CloseParenRange.End.Byte == 0 {
+			return nil
+		}
+		if call.OpenParenRange.End.Byte <= pos.Byte && pos.Byte <= call.CloseParenRange.Start.Byte {
+			inner = call
+		}
+		return nil
+	})
+	if inner == nil {
+		return
+	}
+	tokens, _ := hclsyntax.LexConfig(d.pathCtx.Files[vf].Bytes, vf, hcl.InitialPos)
+	commas, depth := 0, 0
+	slotEmpty := false
+	for _, t := range tokens {
+		if t.Type != hclsyntax.TokenNewline && t.Type != hclsyntax.TokenEOF && verifAnd(t.Range.Start.Byte <= pos.Byte, pos.Byte <= t.Range.End.Byte) {
+			return // something is typed at the cursor
+		}
+		if t.Range.End.Byte <= pos.Byte && t.Type != hclsyntax.TokenNewline && t.Type != hclsyntax.TokenComment {
+			slotEmpty = t.Type == hclsyntax.TokenComma || (t.Type == hclsyntax.TokenOParen && t.Range.End.Byte == inner.OpenParenRange.End.Byte)
+		}
+		if t.Range.Start.Byte < inner.OpenParenRange.End.Byte || t.Range.End.Byte > pos.Byte {
+			continue
+		}
+		switch t.Type {
+		case hclsyntax.TokenOParen, hclsyntax.TokenOBrack, hclsyntax.TokenOBrace, hclsyntax.TokenTemplateInterp, hclsyntax.TokenTemplateControl:
+			depth++
+		case hclsyntax.TokenCParen, hclsyntax.TokenCBrack, hclsyntax.TokenCBrace, hclsyntax.TokenTemplateSeqEnd:
+			depth--
+		case hclsyntax.TokenComma:
+			if depth == 0 {
+				commas++
+			}
+		}
+	}
+	if depth != 0 || !slotEmpty {
+		return // inside a nested bracket of an argument, or behind an argument already written in this slot
+	}
+	f := d.pathCtx.Functions[inner.Name]
+	var pt cty.Type
+	if commas < len(f.Params) {
+		pt = f.Params[commas].Type
+	} else if f.VarParam != nil {
+		pt = f.VarParam.Type
+	} else {
+		return
+	}
+	hasTrue := false
+	for _, c := range cs.List {
+		if c.Label == "true" && c.Kind == lang.BoolCandidateKind {
+			hasTrue = true
+		}
+	}
+	at := verifCursorTag()
+	if pt == cty.Bool {
+		verifAssert(hasTrue, "C08:boolean-literal-offered-for-a-bool-parameter"+at)
+	} else if pt != cty.DynamicPseudoType {
+		verifAssert(!hasTrue, "C08:boolean-literal-only-where-the-parameter-admits-it"+at)
+	}
 }
 
 // verifCheckSignature: the oracle counts, in the token list, the top-level commas of the innermost
